@@ -21,7 +21,15 @@ for d in seeded/*/; do
   esac
   cd /repo
   if [ -n "$(git status --porcelain --untracked-files=no)" ]; then echo "/repo dirty"; exit 2; fi
-  git apply -3 /verif/$d/patch.diff 2>/dev/null || git apply /verif/$d/patch.diff || { echo "| $n | - | apply failed | |" >> $TMP; git checkout -- .; git reset -q; cd /verif; continue; }
+  # plain apply first; 3-way only if needed and only if it merges without conflict
+  if ! git apply /verif/$d/patch.diff 2>/dev/null; then
+    git reset -q; git checkout -- .
+    if ! git apply -3 /verif/$d/patch.diff 2>/dev/null || [ -n "$(git diff --name-only --diff-filter=U)" ]; then
+      git reset -q; git checkout -- .
+      echo "| $n | - | - | patch no longer applies to the current tree (code changed by a later fix) |" >> $TMP
+      cd /verif; continue
+    fi
+  fi
   git reset -q 2>/dev/null
   cd /verif
   for c in $checks; do
